@@ -27,7 +27,7 @@ PARAM_VALS = {
     'can_fd': [True, False, 1, 0, None, 'a'],
     'bitrate_switch': [True, False, 1, None],
     'default_target_address_type': [0, 1, 2, -1, 'a', None],
-    'rate_limit_max_bitrate': [1, 64, 320, 321, 10000, 100000000, 0, -1, 1.5, 'a', None, 10**400],
+    'rate_limit_max_bitrate': [1, 64, 320, 321, 300, 281, 319, 2530, 10000, 100000000, 0, -1, 1.5, 'a', None, 10**400],
     'rate_limit_window_size': [0.2, 1, 0.05, 1.0, 0, -1, 0.0, float('nan'), float('inf'), 1e308, 'a', None, True, 10**400],
     'rate_limit_enable': [True, False, 1, None],
     'listen_mode': [True, False, 0, None],
@@ -212,7 +212,19 @@ class C16(PropBase):
             for k in keys:
                 vals = PARAM_VALS[k]
                 p[k] = rng.choice(vals)
-            ops.append({'op': 'params', 'params': p})
+            op = {'op': 'params', 'params': p}
+            if rng.random() < 0.4:
+                # one key arrives through set(key, value) on an object that is already configured; often a value that COMPARES EQUAL to the one
+                # the object holds but has another type (8.0 for 8, 0 for False, 1000.0 for 1000): validation must not depend on "did it change"
+                k = rng.choice(keys)
+                op['last'] = k
+                cur = rng.choice([v for v in PARAM_VALS[k] if isinstance(v, (int, bool)) and not (isinstance(v, int) and abs(v) > 10**12)] or [None])
+                if cur is not None and rng.random() < 0.7:
+                    op['before'] = {k: cur}
+                    p[k] = int(cur) if isinstance(cur, bool) else (float(cur) if rng.random() < 0.7 else bool(cur) if cur in (0, 1) else float(cur))
+                    if rng.random() < 0.2:
+                        p[k] = cur      # the very same (possibly invalid) value given again
+            ops.append(op)
         return {'ops': ops, 'meta': {'family': 'params'}}
 
     def operable_scenario(self, rng):
